@@ -1853,6 +1853,10 @@ func extractDatumOffsets(datumArrayData []byte, baseOffset uint32, result map[Bl
 	if len(datumArrayData) < 1 {
 		return
 	}
+	// Conway+: the collection may be a tag-258 set
+	var tagLen uint32
+	datumArrayData, tagLen = skipSetTag(datumArrayData)
+	baseOffset += tagLen
 
 	// Get array info from header
 	count, headerSize, indefinite := cborArrayInfo(datumArrayData)
@@ -2101,6 +2105,13 @@ func extractScriptArrayOffsets(scriptArrayData []byte, baseOffset uint32, script
 	if len(scriptArrayData) < 1 {
 		return
 	}
+	// Conway+: the collection may be a tag-258 set
+	var tagLen uint32
+	scriptArrayData, tagLen = skipSetTag(scriptArrayData)
+	baseOffset += tagLen
+	if len(scriptArrayData) < 1 {
+		return
+	}
 
 	var scripts []cbor.RawMessage
 	if _, err := cbor.Decode(scriptArrayData, &scripts); err != nil {
@@ -2251,6 +2262,21 @@ func cborArrayHeaderSizeAt(data []byte, length int) uint32 {
 		return headerSize
 	}
 	return cborArrayHeaderSize(length)
+}
+
+// skipSetTag skips a tag-258 (set) head in front of a collection and returns
+// the remaining bytes and the number of bytes skipped.
+func skipSetTag(data []byte) ([]byte, uint32) {
+	switch {
+	case len(data) >= 3 && data[0] == 0xd9 && data[1] == 0x01 && data[2] == 0x02:
+		return data[3:], 3
+	case len(data) >= 5 && data[0] == 0xda && data[1] == 0 && data[2] == 0 && data[3] == 0x01 && data[4] == 0x02:
+		return data[5:], 5
+	case len(data) >= 9 && data[0] == 0xdb && data[1] == 0 && data[2] == 0 && data[3] == 0 && data[4] == 0 &&
+		data[5] == 0 && data[6] == 0 && data[7] == 0x01 && data[8] == 0x02:
+		return data[9:], 9
+	}
+	return data, 0
 }
 
 // cborArrayHeaderSize returns the CBOR header size in bytes for an array of given length.
